@@ -85,6 +85,30 @@ func main() {
 			os.Exit(2)
 		}
 		printHarness(*prop, res, gen, *verbose)
+	case "keys":
+		// prints every obligation key per property (for DESIGN.md / notes)
+		ctx, err := loadAll(*repo, "")
+		if err != nil {
+			fmt.Println("LOAD ERROR:", err)
+			os.Exit(2)
+		}
+		for _, id := range props.IDs() {
+			ctx.C = an.NewCollector(ctx.P)
+			obs := props.Get(id).Build(ctx)
+			byRule := map[string]int{}
+			for _, o := range obs {
+				byRule[o.Rule]++
+			}
+			var rs []string
+			for r, n := range byRule {
+				rs = append(rs, fmt.Sprintf("%s:%d", r, n))
+			}
+			sort.Strings(rs)
+			fmt.Printf("## %s  (%d obligations; %s)\n", id, len(obs), strings.Join(rs, " "))
+			for _, o := range obs {
+				fmt.Printf("- %s\n", o.Key)
+			}
+		}
 	case "orphans":
 		// development aid: E1 obligations that no property selects
 		ctx, err := loadAll(*repo, "")
@@ -209,6 +233,15 @@ func check(id, tier, repo, verif, onlyKey string) int {
 			return 2
 		}
 		obs := pr.Build(ctx)
+		if tier == "thorough" && arch == "" {
+			// resolution cross-check: every dynamic call the inliner resolved must be a VTA callee of that site
+			n, dis := an.VTACrossCheck(ctx.Sim)
+			for _, d := range dis {
+				obs = append(obs, &an.Oblig{Rule: "VTA", Func: "-", Subject: d, Key: "VTA/-/" + d, Status: "undecided", Detail: "call-resolution cross-check: " + d})
+			}
+			obs = append(obs, &an.Oblig{Rule: "VTA", Func: "-", Subject: "resolved dynamic calls agree with the VTA call graph", Key: "VTA/-/summary", Status: "discharged", Instances: n,
+				Witness: fmt.Sprintf("%d resolved dynamic call sites (interface invokes on package interfaces, cell-held closures, func variables) are VTA callees of their sites", n)})
+		}
 		tag := ""
 		if arch != "" {
 			tag = " [GOARCH=" + arch + "]"
